@@ -6,6 +6,7 @@ package main
 // goflow), so the classification of a hang is a function of the input alone.
 
 import (
+	"fmt"
 	"math"
 	"regexp"
 	"strings"
@@ -159,16 +160,35 @@ func sortStrings(xs []string) {
 	}
 }
 
-// templateMayBeHuge: the template contains an amplifier applied to a large literal: repeat with a count of 7+
-// digits, or something raised to a positive power of 7+ digits (`2 ^ 999999999`, `"-5" ^ 2147483648`) unless the base
-// is a literal below 1 (`0.1 ^ 2000000000`: an error value, and before the repair a tiny number) — negative
-// powers are never counted: their results are small.  The result is then large by construction.
+// templateMayBeHuge: the template contains an amplifier applied to a large literal, so that its result is large by
+// construction: repeat with a count of 7+ digits; something raised to a positive power of 7+ digits
+// (`2 ^ 999999999`, `"-5" ^ 2147483648`); a number LITERAL raised to a positive literal power when
+// (digits of the base) x power >= hugeResult (`<100 digits> ^ 99999`).  Never when the base is a literal below 1
+// (`0.1 ^ 2000000000`: an error value, and before the repair a tiny number) and never for negative powers: their
+// results are small.
 var hugePowerRE = regexp.MustCompile(`\^\s*["(]*[0-9]{7,}`)
 var smallBaseRE = regexp.MustCompile(`(^|[^0-9])0\.[0-9]+"?\)?\s*\^`)
+var literalPowerRE = regexp.MustCompile(`([0-9]+)(\.[0-9]+)?"?\)?\s*\^\s*["(]*([0-9]+)`)
 
 func templateMayBeHuge(tpl string) bool {
-	if !bigLiteralRE.MatchString(tpl) {
+	if strings.Contains(tpl, "repeat(") && bigLiteralRE.MatchString(tpl) {
+		return true
+	}
+	if smallBaseRE.MatchString(tpl) {
 		return false
 	}
-	return strings.Contains(tpl, "repeat(") || (hugePowerRE.MatchString(tpl) && !smallBaseRE.MatchString(tpl))
+	if hugePowerRE.MatchString(tpl) {
+		return true
+	}
+	for _, m := range literalPowerRE.FindAllStringSubmatch(tpl, -1) {
+		if len(m[3]) > 9 {
+			return true
+		}
+		p := 0.0
+		fmt.Sscanf(m[3], "%g", &p)
+		if float64(len(m[1])+len(m[2]))*p >= hugeResult {
+			return true
+		}
+	}
+	return false
 }
